@@ -12,7 +12,11 @@ pub fn read_ndjson(path: &str) -> Vec<J> {
         if line.trim().is_empty() {
             continue;
         }
-        out.push(serde_json::from_str(&line).unwrap_or_else(|e| tool_error(&format!("bad json line in {}: {}", path, e))));
+        // deep programs nest far beyond serde_json's default limit of 128
+        let mut de = serde_json::Deserializer::from_str(&line);
+        de.disable_recursion_limit();
+        let v: J = serde::Deserialize::deserialize(&mut de).unwrap_or_else(|e| tool_error(&format!("bad json line in {}: {}", path, e)));
+        out.push(v);
     }
     out
 }
